@@ -27,6 +27,7 @@ KF = "epr-context:placeholder-qubits-stay-active"
 KF_NV = "epr-context:nv-multi-pair-target-preallocated"
 KF_ELECTRON = "nv-transpile:carbon-carbon-gate-needs-allocated-electron"
 KF_RETRY = "epr-retry:nv-relocation-inside-retry-loop"
+KF_GIVE_UP = "epr-retry:last-attempt-cleaned-up-handles-stay-active"
 
 
 def gen_history(rng, budget, hw):
@@ -87,6 +88,11 @@ def gen_history(rng, budget, hw):
             live += names
             ops.append({"op": "epr_retry", "role": rng.choice(["create", "recv"]), "n": n, "names": names,
                         "retries": rng.choice([0, 1, 1, 2])})
+            if rng.random() < 0.12:
+                # every allowed attempt misses the bound: the request gives up (known finding; judged up to the next flush)
+                ops[-1]["exhausted"] = True
+                ops.append({"op": "flush"})
+                return ops
         elif r < 0.825 and free_slots >= 1:
             # one pair, sequential=True, no post routine: legal, returns an ordinary handle
             nq += 1
@@ -221,7 +227,7 @@ def run_case(ctx, case):
             plan.append(PlannedRequest(o["role"], "K", o["n"], bells=bells(o["n"])))
         elif o["op"] == "epr_retry":
             for attempt in range(o["retries"] + 1):
-                slow = attempt < o["retries"]
+                slow = attempt < o["retries"] or bool(o.get("exhausted"))
                 plan.append(PlannedRequest(o["role"], "K", o["n"], bells=bells(o["n"]),
                                            fields=(lambda k, name, slow=slow: (60000 if slow else 100) if name == "goodness" else None)))
     es = EPRSocket("bob")
@@ -247,6 +253,7 @@ def run_case(ctx, case):
         ctx.count("histories_after_an_earlier_program")
     handles = {}
     leaky = []            # handles created by sequential / context requests (known to stay active)
+    given_up = []         # handles of a request whose every attempt missed the fidelity bound
     released_ids = set()
     reuse = 0
     n_flush = 0
@@ -319,9 +326,12 @@ def run_case(ctx, case):
                             (not isinstance(q, FutureQubit)) and q.qubit_id == 0 for q in conn.active_qubits):
                         relocation_in_retry_loop = True
                     fn = es.create_keep if o["role"] == "create" else es.recv_keep
-                    qs = fn(o["n"], min_fidelity_all_at_end=80, max_tries=o["retries"] + 2)
+                    qs = fn(o["n"], min_fidelity_all_at_end=80, max_tries=o["retries"] + (1 if o.get("exhausted") else 2))
                     for name, q in zip(o["names"], qs):
                         handles[name] = q
+                    if o.get("exhausted"):
+                        ctx.count("epr_retry_requests_that_give_up")
+                        given_up.extend(qs)
                 elif k == "epr_seq":
                     ctx.count("epr_requests")
                     had_leaky = True
@@ -343,7 +353,7 @@ def run_case(ctx, case):
                     conn.flush()
                     n_flush += 1
                     ctx.count("flushes_compared")
-                    if not _compare(ctx, case, conn, ex, app, leaky, FutureQubit, handles, had_leaky):
+                    if not _compare(ctx, case, conn, ex, app, leaky, FutureQubit, handles, had_leaky, given_up):
                         return ctx.case(case, False)
             except (ValueError, AssertionError, UnboundLocalError) as e:
                 if k == "flush":
@@ -400,7 +410,7 @@ def _carbon_carbon_without_electron(cf, case, conn):
     return False
 
 
-def _compare(ctx, case, conn, ex, app, leaky, FutureQubit, handles, had_leaky_request):
+def _compare(ctx, case, conn, ex, app, leaky, FutureQubit, handles, had_leaky_request, given_up=()):
     um = ex._qubit_unit_modules.get(app) or []
     ctrl = {v for v, p in enumerate(um) if p is not None}
     active = list(conn.active_qubits)
@@ -421,6 +431,14 @@ def _compare(ctx, case, conn, ex, app, leaky, FutureQubit, handles, had_leaky_re
     if placeholders and regular == ctrl and had_leaky_request:
         ctx.fail(case, f"after flush: connection.active_qubits still lists {len(placeholders)} handle(s) of a sequential/context EPR "
                        f"request; controller allocated set {sorted(ctrl)}", key=KF)
+        return False
+    lost = {q.qubit_id for q in given_up if q in active}
+    if lost and not placeholders and sdk - lost == ctrl and not (lost & ctrl):
+        # known mechanism: the clean-up of the retry loop frees the pairs of EVERY missed attempt, also the last one, while the
+        # handles were left active for "the next iteration"
+        ctx.fail(case, f"after flush: a keep request gave up after its last allowed attempt; its clean-up freed the pairs but "
+                       f"connection.active_qubits still lists their handles (ids {sorted(lost)}); controller allocated set {sorted(ctrl)}",
+                 key=KF_GIVE_UP)
         return False
     ctx.fail(case, f"after flush: connection.active_qubits IDs {sorted(sdk)} but the controller has virtual qubits {sorted(ctrl)} allocated "
                    f"(budget {case['budget']}, {case['hardware']}{', transpiled' if case['transpile'] else ''})")
